@@ -86,7 +86,7 @@ def wfsCheck (K : PCtx) (exitJ : Nat) (names : List String) : Bool :=
   decide (K.sp + 2 < memWords) && !K.env.isCode (K.sp + 2)
 
 theorem wfsCheck_sound (K : PCtx) (exitJ : Nat) (names : List String)
-    (hnames : ∀ n a, K.loc n = some a → n ∈ names) (harr : K.ArrOK)
+    (hnames : ∀ n a, K.loc n = some a → n ∈ names) (harr : K.ArrOK) (hstr : K.StrOK)
     (h : wfsCheck K exitJ names = true) : K.WFS exitJ := by
   unfold wfsCheck at h
   simp only [Bool.and_eq_true, decide_eq_true_eq, List.all_eq_true, Bool.not_eq_true'] at h
@@ -124,7 +124,7 @@ theorem wfsCheck_sound (K : PCtx) (exitJ : Nat) (names : List String)
       exact ⟨j, rfl, this.1.1, this.1.2, fun n hn => by simpa using this.2 n hn⟩
   refine { nodup := hnd, var_global := ?_, var_local := ?_, const_lbl := ?_, slot_ok := ?_, sp_ge := hsp2, sp_le := hspS,
            loc_sep := ?_, loc_ok := ?_, loc_inj := ?_, const_sep := ?_, loc_ne_link := ?_, exit_lbl := ?_,
-           stop_ok := ⟨hst1, hst2⟩, arr_hi := harr.arr_hi, arr_disj := harr.arr_disj, arr_code := harr.arr_code, loc_na := harr.loc_na }
+           stop_ok := ⟨hst1, hst2⟩, arr_hi := harr.arr_hi, arr_disj := harr.arr_disj, arr_code := harr.arr_code, loc_na := harr.loc_na, str := hstr }
   · intro n sym a hl hs hloc
     obtain ⟨_, _, _, _, _, h6⟩ := hname n a hloc
     rw [hl] at h6
